@@ -171,6 +171,12 @@ func (w *baWorld) arm() {
 		if e.armed {
 			e.code = rapid.SampledFrom(faultCodes).Draw(w.t, "code")
 			e.faulty.Script[e.calls] = backends.Fault{Code: e.code}
+			// 1 case in 4: the calls that follow (a repetition of the
+			// failed one, for instance) fail as well.
+			if rapid.IntRange(0, 3).Draw(w.t, "burst") == 0 {
+				e.faulty.Script[e.calls+1] = backends.Fault{Code: e.code}
+				e.faulty.Script[e.calls+2] = backends.Fault{Code: e.code}
+			}
 		}
 	}
 }
@@ -185,6 +191,8 @@ func (w *baWorld) disarm(callsBefore []int) (fired []int) {
 			fired = append(fired, i)
 		}
 		delete(e.faulty.Script, callsBefore[i])
+		delete(e.faulty.Script, callsBefore[i]+1)
+		delete(e.faulty.Script, callsBefore[i]+2)
 		e.armed = false
 	}
 	return fired
